@@ -56,7 +56,7 @@ EXC_PARENTS = {
     'NotImplementedError': 'RuntimeError', 'RuntimeError': 'Exception', 'OSError': 'Exception',
     'ConnectionError': 'OSError', 'ConnectionResetError': 'ConnectionError', 'IncompleteReadError': 'EOFError',
     'EOFError': 'Exception', 'StopIteration': 'Exception', 'UnicodeDecodeError': 'ValueError',
-    'struct.error': 'Exception', 'TimeoutError': 'OSError', 'StopAsyncIteration': 'Exception',
+    'struct.error': 'Exception', 'TimeoutError': 'OSError', 'StopAsyncIteration': 'Exception', 'QueueEmpty': 'Exception',
 }
 
 
@@ -1296,7 +1296,17 @@ class Exec:
         raise unmodelled
 
     def ex_Lambda(self, e, fr):
-        return Opaque('lambda')
+        # a lambda is a nested function whose body is `return <expr>` (closure over the enclosing frame)
+        from .frontend import FuncInfo
+        node = ast.FunctionDef(name='<lambda>', args=e.args, body=[ast.Return(value=e.body)], decorator_list=[], returns=None, type_comment=None)
+        ast.copy_location(node, e)
+        ast.fix_missing_locations(node)
+        node.end_lineno = getattr(e, 'end_lineno', e.lineno)
+        outer = fr.func.qualname if fr.func is not None else '<module>'
+        info = FuncInfo(fr.module, f'{outer}.<locals>.<lambda>', node, None, '')
+        info.closure_env = fr.locals
+        info.is_nested = True
+        return FuncVal(info)
 
     def ex_Await(self, e, fr):
         if 'await' in self.hooks:
